@@ -234,6 +234,24 @@ Proof.
     + rewrite repeat_length, nth_index_of; auto.
 Qed.
 
+(* untranspose_list[transpose_list[m]] = m  and  transpose_list[untranspose_list[a]] = a *)
+Lemma untranspose_list_inverse_pointwise tl m :
+  is_perm tl -> m < length tl ->
+  nth (nth m tl 0) (untranspose_list tl) 0 = m /\ nth (nth m (untranspose_list tl) 0) tl 0 = m.
+Proof.
+  intros Hp Hm. rewrite (untranspose_list_is_inverse tl Hp). destruct Hp as [Hnd Hlt]. split.
+  - rewrite nth_inv_perm by (apply Hlt; now apply nth_In). now apply index_of_nth.
+  - rewrite nth_inv_perm by auto. apply nth_index_of. apply perm_all_in; [split|]; auto.
+Qed.
+
+Lemma unperm_gather_id tl idx : is_perm tl -> length idx = length tl -> unperm tl (gather idx tl) = idx.
+Proof.
+  intros Hp Hl. apply (nth_ext _ _ 0 0); [now rewrite length_unperm|].
+  intros a Ha. rewrite length_unperm in Ha. rewrite nth_unperm by auto.
+  pose proof (perm_all_in tl Hp a Ha) as Hin.
+  rewrite nth_gather by (now apply index_of_lt). now rewrite nth_index_of.
+Qed.
+
 (* ---------------------------------------------------------------- spectators ++ targets is a permutation *)
 
 Definition spectators (N : nat) (taxes : list nat) : list nat :=
